@@ -12,6 +12,7 @@ def gen_world(rng, pid):
     if rng.random() < 0.5: inner_fields.append(["m", "array", "Float64", [2, rng.choice([2, 3])]])
     if rng.random() < 0.5: inner_fields.append(["q", "scalar", "Float64"])
     if rng.random() < 0.4: inner_fields.append(["name", "string"])
+    if pid == "C18" and rng.random() < 0.5: inner_fields.append(["b2", "array", "Float64", [None]])     # a second variable-length part
     if pid == "C19":
         inner_fields.append(["d1", "scalar", "Int32", {"default": 42}])
         inner_fields.append(["d2", "scalar", "Int32", {"factory": 7}])
@@ -117,6 +118,7 @@ def to_ctor_vals(world, cname, vals):
 def gen_case(rng, nops, pid):
     world = gen_world(rng, pid)
     DYNLEN.clear(); DYNLEN.update({"b": rng.choice([0, 1, 2, 3, 5]), "v": rng.choice([0, 1, 3, 4])})
+    DYNLEN["b2"] = rng.choice([x for x in [0, 1, 2, 4] if x != DYNLEN["b"]])
     M = HModel(world)
     ops = []
     def push(op):
@@ -127,6 +129,11 @@ def gen_case(rng, nops, pid):
         M.objs[name] = {"cls": cname, "buf": buf, "fields": vals, "movable": True}
         push({"op": "new", "name": name, "cls": cname, "buf": buf, "vals": to_ctor_vals(world, cname, vals)})
     new("i0", "Inner", "B0")
+    if any(f[0] == "b2" for f in world["classes"]["Inner"]["fields"]):
+        # an Inner of the SAME total size whose two variable-length parts have each other's lengths
+        DYNLEN["b"], DYNLEN["b2"] = DYNLEN["b2"], DYNLEN["b"]
+        new("ix", "Inner", rng.choice(["B0", "B1"]))
+        DYNLEN["b"], DYNLEN["b2"] = DYNLEN["b2"], DYNLEN["b"]
     holes = pid == "C20" and rng.random() < 0.6
     if holes: push({"op": "raw_alloc", "buf": "B0", "size": rng.choice([8, 24, 40]), "name": "h0"})
     new("i1", "Inner", rng.choice(["B0", "B1", "B2"]))
@@ -168,7 +175,8 @@ def gen_case(rng, nops, pid):
             new_names = ["p%d_%s" % (k, n) for n in names]
             for n, nn in zip(names, new_names):
                 M.objs[nn] = {"cls": M.objs[n]["cls"], "buf": "P%d_%s" % (k, M.objs[n]["buf"]), "fields": copy.deepcopy(M.objs[n]["fields"]), "movable": True, "of": n}
-            push({"op": "pickle", "names": names, "new_names": new_names, "raw": rng.random() < 0.5})
+            push({"op": "pickle", "names": names, "new_names": new_names, "raw": rng.random() < 0.5, "protocol": rng.choice([None, None, 0, 1, 2, 5]),
+                  "with_parts": rng.random() < 0.5})
         elif r < 0.40:
             # scalar / string / whole nplike array / element of nplike, at the top or through a nested dressed part
             n = rng.choice([n for n, o in M.objs.items() if not o.get("anon")]); o = M.objs[n]
@@ -351,6 +359,9 @@ def judge_case(pid, c, r):
                 return [("C20/unpickled-object-still-uses-the-original-buffer", str(st.get("shares_with_original")), k)]
             if not st.get("alloc_ok"):
                 return [("C20/restored-buffer-is-not-a-working-allocator", str(st.get("alloc_detail")), k)]
+            for cn, pn, samebuf, sameoff in st.get("parts_in_place", []):
+                if not (samebuf and sameoff):
+                    return [("C20/nested-part-pickled-with-its-container-no-longer-inside-it", "%s.%s: same buffer %s, at its field %s" % (cn, pn, samebuf, sameoff), k)]
     return []
 
 
